@@ -45,6 +45,20 @@ func runTmoAPICase(ctx *Ctx, delays []time.Duration, cancel map[int]bool, cancel
 		ctx.R.Leave()
 	}
 	_ = &mu
+	// Cancel on the package's VoidFuture (what a Future variable is initialised with): touches nobody
+	if cancelTwice {
+		ctx.R.Enter()
+		func() {
+			defer func() {
+				if p := recover(); p != nil {
+					ctx.R.Quiet("mon C12-cancel-removes-exactly", fmt.Sprintf("VoidFuture.Cancel() panicked: %v (delays %v)", p, delays))
+				}
+			}()
+			timeout.VoidFuture.Cancel()
+			timeout.VoidFuture.Cancel()
+		}()
+		ctx.R.Leave()
+	}
 	// cancel the chosen ones right away (all of them are due later than "now" unless their delay is <= 0)
 	for i, f := range futs {
 		if cancel[i] {
